@@ -486,11 +486,22 @@ func c15Doc(ctx *Ctx, d *jdoc) {
 	for i := 0; i < 2; i++ {
 		c15Unmarshal(ctx, b, c15TyForDoc(r, d, 3))
 	}
+	// docOK: the hypothesis of C15.doc_roundtrip_partial (Lean's predicate vs the Go mirror)
+	dok := docOKGo(b)
+	ctx.Add("json.docok", encBool(dok), tb.String(), tree)
+	if dok {
+		ctx.Tag("doc:docOK")
+	}
 	// document round trip
 	st, ok := c15Structural(d)
 	ctx.Eval("doc "+tree, len(d.kids) > 0)
 	if !ok {
 		ctx.Tag("doc:conflicting-or-raw")
+		if dok {
+			// docOK documents have no duplicates; raw fragments are ordinary JSON: run the
+			// strict round trip on them too
+			c15DocStrict(ctx, b, tree)
+		}
 		return
 	}
 	ctx.Tag("doc:roundtrip")
@@ -510,7 +521,9 @@ func c15Doc(ctx *Ctx, d *jdoc) {
 	v, uo := c15Unmarshal(ctx, b, it)
 	if uo != "ok" {
 		cause := "unexpected"
-		if docHasNonNFCKey(d) {
+		if dok {
+			cause = "theorem-applies"
+		} else if docHasNonNFCKey(d) {
 			cause = "non-nfc-object-key"
 		}
 		fail("unmarshal-"+uo+":"+cause, "Unmarshal with the implied type failed", uo)
@@ -525,6 +538,94 @@ func c15Doc(ctx *Ctx, d *jdoc) {
 	x2, e2 := plainDecode(b2)
 	if e1 != nil || e2 != nil || !plainEquiv(x1, x2) {
 		fail("document-changed", "re-marshalled document differs beyond key order, number spelling and string normalisation", string(b2))
+	}
+}
+
+// docOKGo mirrors JsonVal.docOK on the token stream: object keys strictly ascending
+// (bytewise) and NFC, strings NFC, numbers parse and satisfy NumOK.
+func docOKGo(b []byte) bool {
+	dec := json.NewDecoder(bytes.NewReader(b))
+	dec.UseNumber()
+	var val func() bool
+	val = func() bool {
+		tok, err := dec.Token()
+		if err != nil {
+			return false
+		}
+		switch v := tok.(type) {
+		case string:
+			return cty.NormalizeString(v) == v
+		case json.Number:
+			p, err := cty.ParseNumberVal(string(v))
+			return err == nil && numReparses(p.AsBigFloat())
+		case json.Delim:
+			switch v {
+			case '[':
+				ok := true
+				for dec.More() {
+					if !val() {
+						ok = false
+					}
+				}
+				dec.Token()
+				return ok
+			case '{':
+				ok := true
+				prev, first := "", true
+				for dec.More() {
+					kt, err := dec.Token()
+					if err != nil {
+						return false
+					}
+					k := kt.(string)
+					if cty.NormalizeString(k) != k || (!first && !(prev < k)) {
+						ok = false
+					}
+					prev, first = k, false
+					if !val() {
+						ok = false
+					}
+				}
+				dec.Token()
+				return ok
+			}
+			return false
+		}
+		return true
+	}
+	return val()
+}
+
+// c15DocStrict: the conclusion of C15.doc_roundtrip_partial on the real code.
+func c15DocStrict(ctx *Ctx, b []byte, tree string) {
+	fail := func(what string) {
+		ctx.Fail(Failure{Site: "doc-roundtrip", Sig: "theorem-applies:" + what, What: "a document meeting the hypotheses of C15.doc_roundtrip_partial does not round-trip", Input: tree,
+			GoLit: fmt.Sprintf("b := []byte(%q)", b), Outcome: what})
+	}
+	var it cty.Type
+	var err error
+	if p, _ := try(func() { it, err = ctyjson.ImpliedType(b) }); p || err != nil {
+		fail("implied")
+		return
+	}
+	var v cty.Value
+	if p, _ := try(func() { v, err = ctyjson.Unmarshal(b, it) }); p || err != nil {
+		fail("unmarshal")
+		return
+	}
+	if !v.Type().Equals(it) {
+		fail("type")
+		return
+	}
+	var b2 []byte
+	if p, _ := try(func() { b2, err = ctyjson.Marshal(v, it) }); p || err != nil {
+		fail("marshal")
+		return
+	}
+	x1, e1 := plainDecode(b)
+	x2, e2 := plainDecode(b2)
+	if e1 != nil || e2 != nil || !plainEquiv(x1, x2) {
+		fail("changed")
 	}
 }
 
